@@ -10,7 +10,7 @@
 (* Python only transports values and applies primitives; every structural  *)
 (* decision is taken here.                                                 *)
 (***************************************************************************)
-EXTENDS Bip38Env, Json, IOUtils
+EXTENDS Bip38Env, Bip38Hist, Json, IOUtils
 
 Recs == ndJsonDeserialize(IOEnv.IN_FILE)
 
@@ -175,6 +175,14 @@ JEnv(r) ==
         k   == FirstBlame(fs)
     IN IF k = 0 THEN Good ELSE [v |-> fs[k], dev |-> "", exp |-> <<>>, need |-> <<>>, at |-> k, devs |-> <<>>]
 
+(* ---- histories of calls within one process (Bip38Hist) ---- *)
+\* (G) the histories to replay: every history of two calls, and the longer ones that expose some implementation with memory,
+\* each with the set of such implementations it exposes.  (V) is done call by call with the record kinds above: the answer
+\* to every call of a replayed history must be the function of its own arguments.
+JHistGen(r) == [v |-> "ok", dev |-> "", exp |-> <<>>, need |-> <<>>, at |-> 0, devs |-> <<>>,
+                hists |-> {[h |-> h, exposed |-> HExposed(h)] :
+                              h \in {x \in UNION {Histories(n) : n \in 2..r.L} : Len(x) = 2 \/ HExposed(x) # {}}}]
+
 Judge(r) ==
     CASE r.k = "enc"   -> JEnc(r)
       [] r.k = "dec"   -> JDec(r)
@@ -182,6 +190,7 @@ Judge(r) ==
       [] r.k = "new"   -> JNew(r)
       [] r.k = "rt"    -> JRoundTrip(r)
       [] r.k = "envgen" -> JEnvGen(r)
+      [] r.k = "histgen" -> JHistGen(r)
       [] r.k = "env"   -> JEnv(r)
       [] r.k = "trace" -> Run({LedgerInit}, r.events, 1, <<>>)
       [] r.k = "vector" -> JVector(r)
